@@ -24,7 +24,21 @@ def gen_problem(rng, tier):
 
 
 def solve_args(problem):
+    if problem.get("default_n"):
+        return (problem["problem"],), {}          # the standard 9 x 9 call relies on the default n = 3
     return (problem["problem"],), {"n": problem["n"]}
+
+
+def extra_program_problems(rng):
+    """Instances used for the program correspondence only (too large for the brute-force rule differential): the standard
+    9 x 9 board, called WITHOUT `n`."""
+    n, size = 3, 9
+    base = [[(n * (y % n) + y // n + x) % size + 1 for x in range(size)] for y in range(size)]
+    out = []
+    for keep in (0.0, 0.3, 1.0):
+        pb = [[base[y][x] if rng.random() < keep else 0 for x in range(size)] for y in range(size)]
+        out.append({"n": 3, "problem": pb, "default_n": True})
+    return out
 
 
 def keys(problem, result):
